@@ -2,6 +2,7 @@ import EaselModel.Stats.HistRat
 import EaselModel.Stats.HistQuery
 import EaselModel.Stats.HistCens
 import EaselModel.Stats.FitReal
+import EaselModel.Stats.GumbelConcave
 /-! # C11 — property theorems (statements + glue only; lemmas live in `EaselModel/Stats/*`)
 
 Histogram half. `Hist` is the line-by-line model of `esl_histogram.c` (`EaselModel/Stats/Histogram.lean`), run bit-for-bit
@@ -122,8 +123,8 @@ example : ∃ h : Hist ℚ, Hist.create (0 : ℚ) 10 1 = .val (some h) := by
 
 Full statement of the property for the fits: *every* fitting routine returns a documented failure status or finite
 parameters that maximise its log-likelihood. Proved below: exponential (global maximiser, unique in λ), Gumbel complete /
-censored / fixed-λ (μ exact maximiser for the returned λ; λ stationary for the profile likelihood within the Newton
-tolerance; termination). NOT proved (`partial`): binary64 rounding (L0); global optimality of λ beyond stationarity;
+censored / fixed-λ (μ exact maximiser for the returned λ; λ stationary for the concave profile likelihood within the Newton
+tolerance, hence (μ,λ) the global maximiser up to `n·10⁻⁵·|λ'-λ|`; termination). NOT proved (`partial`): binary64 rounding (L0);
 the conjugate-gradient fits (Weibull, stretched exponential, truncated Gumbel, GEV) and the gamma generalized-Newton fit,
 which are only monitored on the implementation's output. The log-normal `sigma` uses the `n-1` variance (not the ML `n`). -/
 
@@ -172,6 +173,25 @@ theorem gumbel_complete_fit_stationary (xs : Array ℝ) (mu lam : ℝ) (h : gumb
 theorem gumbel_censored_fit_stationary (xs : Array ℝ) (z : Int) (phi mu lam : ℝ) (h : gumbelFitCensored xs z phi = .res .ok #[mu, lam]) :
     |lawlessF xs.toList z phi lam| < (1e-5 : ℝ) ∧ mu = -(Real.log (gS xs.toList z phi lam / xs.size)) / lam :=
   gumbelFitCensored_ok xs z phi mu lam h
+
+/-- The Gumbel profile log-likelihood lies below each of its tangents (it is concave in `λ`). -/
+theorem gumbel_profile_concave (xs : List ℝ) (z phi lam lam' : ℝ) (hz : 0 ≤ z) (hn : 0 < xs.length) (hl : 0 < lam) (hl' : 0 < lam')
+    (hS : 0 < gS xs z phi lam) (hS' : 0 < gS xs z phi lam') :
+    llGumbelProfile xs z phi lam' ≤ llGumbelProfile xs z phi lam + xs.length * lawlessF xs z phi lam * (lam' - lam) :=
+  profile_below_tangent xs z phi lam lam' hz hn hl hl' hS hS'
+
+/-- **Gumbel complete-data fit = global likelihood maximiser up to the Newton tolerance.** If `esl_gumbel_FitComplete` returns eslOK
+    with `(μ, λ)`, `λ > 0`, then for EVERY `μ'` and EVERY `λ' > 0`:  `logL(μ', λ') ≤ logL(μ, λ) + n·10⁻⁵·|λ' - λ|`. -/
+theorem gumbel_complete_fit_near_optimal (xs : Array ℝ) (mu lam : ℝ) (h : gumbelFitComplete xs = .res .ok #[mu, lam]) (hl : 0 < lam)
+    (mu' lam' : ℝ) (hl' : 0 < lam') :
+    llGumbel xs.toList 0 0 mu' lam' ≤ llGumbel xs.toList 0 0 mu lam + xs.size * (1e-5 : ℝ) * |lam' - lam| :=
+  gumbelFitComplete_near_optimal xs mu lam h hl mu' lam' hl'
+
+/-- the same for censored data (`z ≥ 0` values censored at `phi`). -/
+theorem gumbel_censored_fit_near_optimal (xs : Array ℝ) (z : Int) (hz : 0 ≤ z) (phi mu lam : ℝ)
+    (h : gumbelFitCensored xs z phi = .res .ok #[mu, lam]) (hl : 0 < lam) (mu' lam' : ℝ) (hl' : 0 < lam') :
+    llGumbel xs.toList z phi mu' lam' ≤ llGumbel xs.toList z phi mu lam + xs.size * (1e-5 : ℝ) * |lam' - lam| :=
+  gumbelFitCensored_near_optimal xs z hz phi mu lam h hl mu' lam' hl'
 
 /-- `esl_gumbel_FitCompleteLoc` / `FitCensoredLoc` return exactly that `μ`-maximiser for the caller's `λ`. -/
 theorem gumbel_loc_fits_closed_form (xs : Array ℝ) (z : Int) (phi lam : ℝ) (hn : 1 < xs.size) :
